@@ -140,6 +140,8 @@ struct GenOptions {
   bool hostileNames = false, hostileValues = false, largeValues = false;
   bool allowCycles = false;     // C07: requests may point anywhere
   bool singleUse = true, mustFollow = true, discovered = true, dynamic = true, extOut = true, forceChange = true;
+  unsigned modulusNum = 1, modulusDen = 3;   // share of keys whose value is reduced modulo a small number (identical recomputes)
+  unsigned oddModeWeight = 1;                 // weight (out of 10, per kind) of single-use and must-follow requests
 };
 
 inline std::string hostileName(vf::Rng& r, size_t idx) {
@@ -179,7 +181,7 @@ inline Program generate(vf::Rng& r, const GenOptions& o) {
     for (size_t q = cand.size(); q > 1; --q) std::swap(cand[q - 1], cand[r.below(q)]);
     size_t take = std::min<size_t>(cand.size(), 1 + r.below(4));
     size_t pos = 0;
-    auto mode = [&]() { unsigned x = (unsigned)r.below(10); if (x == 0 && o.singleUse) return (int)SingleUse; if (x == 1 && o.mustFollow) return (int)MustFollow; return (int)Normal; };
+    auto mode = [&]() { unsigned x = (unsigned)r.below(10); if (x < o.oddModeWeight && o.singleUse) return (int)SingleUse; if (x >= o.oddModeWeight && x < 2 * o.oddModeWeight && o.mustFollow) return (int)MustFollow; return (int)Normal; };
     size_t nStatic = take ? 1 + r.below(take) : 0;
     for (; pos < nStatic; ++pos) k.statics.push_back({cand[pos], mode()});
     if (o.dynamic) for (; pos < take; ++pos) {
@@ -197,7 +199,7 @@ inline Program generate(vf::Rng& r, const GenOptions& o) {
       for (size_t q = pos; q < cand.size(); ++q) if (p.keys[cand[q]].isInput) k.leafCandidates.push_back(cand[q]);
       if (!k.leafCandidates.empty()) k.discoverCount = 1 + (unsigned)r.below(std::min<size_t>(2, k.leafCandidates.size()));
     }
-    if (r.chance(1, 3)) k.modulus = 1 + (unsigned)r.below(3);
+    if (r.chance(o.modulusNum, o.modulusDen)) k.modulus = 1 + (unsigned)r.below(3);
     if (o.forceChange && r.chance(1, 12)) k.forceChange = true;
     if (o.extOut && r.chance(1, 4)) k.hasExtOut = true;
     k.valueStyle = o.hostileValues ? (r.chance(1, 2) ? 2 : (unsigned)r.below(2)) : (unsigned)r.below(2);
